@@ -29,6 +29,11 @@ pub struct Case {
     /// must then be spread over several invocations, sized by bytes (not characters)
     #[serde(default)]
     pub xargs_room: Option<u32>,
+    /// Some(t): the tree stands in the directory `c/<t>` and find runs (as a process) with `c` as
+    /// its working directory, so that the starting point, spelled `root`, begins with the hostile
+    /// name itself (blanks, a leading '(' '!' ',' ')', newline, quote ...)
+    #[serde(default)]
+    pub top: Option<String>,
 }
 
 fn gen_hostile_name(g: &mut Gen, long_mode: bool, uniform_unit: Option<&'static str>) -> String {
@@ -84,7 +89,26 @@ pub fn gen_case(g: &mut Gen) -> Case {
         };
         nodes.push(Node::new(path, kind));
     }
-    Case { tree: TreeSpec { nodes }, root: g.pick(&["c/r", "c/r/", "./c/r", "c/r/.", "c//r"]).to_string(), pipeline: if long_mode { g.chance(1, 2) } else { g.chance(1, 6) }, depth: g.chance(1, 4), xargs_room: if g.chance(1, 2) { Some(g.pick(&[6_000u32, 9_000, 14_000, 24_000, 40_000, 70_000])) } else { None } }
+    if !long_mode && g.chance(1, 4) {
+        // hostile starting point, given bare
+        let mut t = match g.below(3) {
+            0 => g.pick(HOSTILE_NAMES).to_string(),
+            1 => format!("{}{}", g.pick(&["(", ")", "!", ",", "(2024) ", "!!", ",v", " ", "\n", "'", "\"", "\\", "{}", "+", ";", "é", "%", "~", "#"]), g.pick(&["a", "x y", "", "b", "(", "!", ",", "-print", "é"])),
+            _ => gen_hostile_name(g, false, None),
+        };
+        if t.is_empty() || t == "." || t == ".." {
+            t = "(t".into();
+        }
+        for n in nodes.iter_mut() {
+            n.path = format!("c/{t}{}", &n.path[3..]);
+        }
+        // a word that begins with '-' or is an operator by itself is part of the expression: such a
+        // directory can only be named with something in front
+        let needs_prefix = t.starts_with('-') || ["(", ")", "!", ","].contains(&t.as_str());
+        let root = if needs_prefix { format!("./{t}") } else { match g.below(5) { 0 | 1 => t.clone(), 2 => format!("{t}/"), 3 => format!("{t}/."), _ => format!("{t}//") } };
+        return Case { tree: TreeSpec { nodes }, root, pipeline: true, depth: g.chance(1, 4), xargs_room: None, top: Some(t) };
+    }
+    Case { top: None, tree: TreeSpec { nodes }, root: g.pick(&["c/r", "c/r/", "./c/r", "c/r/.", "c//r"]).to_string(), pipeline: if long_mode { g.chance(1, 2) } else { g.chance(1, 6) }, depth: g.chance(1, 4), xargs_room: if g.chance(1, 2) { Some(g.pick(&[6_000u32, 9_000, 14_000, 24_000, 40_000, 70_000])) } else { None } }
 }
 
 fn special(name: &str) -> bool {
@@ -95,8 +119,8 @@ pub fn check(ctx: &mut Ctx, c: &Case) -> Outcome {
     ctx.fresh_case_dir();
     c.tree.build();
     let wo = WalkOpts { follow: FollowMode::P, depth_first: c.depth, ..Default::default() };
-    let (entries, _) = ref_paths(&c.root, &wo);
-    let paths: Vec<String> = entries.iter().map(|e| e.path.clone()).collect();
+    let (entries, _) = ref_paths(&if c.top.is_some() { format!("c/{}", c.root) } else { c.root.clone() }, &wo);
+    let paths: Vec<String> = entries.iter().map(|e| if c.top.is_some() { e.path[2..].to_string() } else { e.path.clone() }).collect();
     let mut want0: Vec<u8> = vec![];
     let mut wantn: Vec<u8> = vec![];
     for p in &paths {
@@ -121,6 +145,9 @@ pub fn check(ctx: &mut Ctx, c: &Case) -> Outcome {
         k.join("+")
     };
     for (action, want) in [("-print0", &want0), ("-print", &wantn)] {
+        if c.top.is_some() {
+            break; // the working directory of the harness process is not changed: binary only
+        }
         let mut a = base.clone();
         a.push(action);
         let o = ctx.find(&a);
@@ -134,9 +161,9 @@ pub fn check(ctx: &mut Ctx, c: &Case) -> Outcome {
     if c.pipeline {
         let mut a: Vec<OsString> = base.iter().map(|s| OsString::from(*s)).collect();
         a.push("-print0".into());
-        let f = ctx.run_bin(&find_bin(), &a, &BinOpts::default());
+        let f = ctx.run_bin(&find_bin(), &a, &BinOpts { cwd: c.top.as_ref().map(|_| ctx.root.join("c")), ..Default::default() });
         if !f.ordinary() || f.code != Some(0) || f.stdout != want0 {
-            return fail(format!("C07:-print0-output-differs:binary:{}", hostile_kinds()), format!("find {a:?}\nexpected {} bytes, observed {} bytes\nexpected {:?}\nobserved {:?}\nexit {:?} stderr {:?}", want0.len(), f.stdout.len(), lossy(&want0), lossy(&f.stdout), f.code, lossy(&f.stderr)));
+            return fail(format!("C07:-print0-output-differs:binary:{}{}", hostile_kinds(), if c.top.is_some() { ":hostile-starting-point" } else { "" }), format!("find {a:?}\nexpected {} bytes, observed {} bytes\nexpected {:?}\nobserved {:?}\nexit {:?} stderr {:?}", want0.len(), f.stdout.len(), lossy(&want0), lossy(&f.stdout), f.code, lossy(&f.stderr)));
         }
         let mut bo = BinOpts { clear_env: true, ..Default::default() };
         if let Some(room) = c.xargs_room {
@@ -169,7 +196,9 @@ pub fn check(ctx: &mut Ctx, c: &Case) -> Outcome {
         .class_if(paths.iter().any(|p| p.find('\n').map_or(false, |i| p.len() - i > 1024)), "newline-over-1KiB-before-end")
         .class_if(c.tree.nodes.iter().any(|n| n.name().trim().is_empty()), "blank-only-name")
         .class_if(c.tree.nodes.iter().any(|n| n.name().starts_with('-')), "leading-dash")
-        .class_if(c.root != "c/r", "root-spelled-differently")
+        .class_if(c.root != "c/r" && c.top.is_none(), "root-spelled-differently")
+        .class_if(c.top.is_some(), "hostile-starting-point-given-bare")
+        .class_if(c.top.as_ref().map_or(false, |t| t.starts_with(['(', ')', '!', ','])), "starting-point-begins-like-an-operator")
         .sample(json!({"root": c.root, "paths": paths.iter().take(6).collect::<Vec<_>>(), "pipeline": c.pipeline}))
         .ok()
 }
